@@ -14,3 +14,12 @@ pub(super) use delaunay::delaunay_reduce;
 pub(super) use integer_system::sylvester3;
 pub(super) use minkowski::{is_minkowski_reduced, minkowski_reduce};
 pub(super) use niggli::{is_niggli_reduced, niggli_reduce};
+
+#[cfg(feature = "verif")]
+pub mod verif_exports {
+    pub use super::cycle_checker::CycleChecker;
+    pub use super::delaunay::delaunay_reduce;
+    pub use super::integer_system::{sylvester3, IntegerLinearSystem};
+    pub use super::minkowski::{is_minkowski_reduced, minkowski_reduce};
+    pub use super::niggli::{is_niggli_reduced, niggli_reduce};
+}
